@@ -94,6 +94,7 @@ def item_letter(it):
 
 GEN_SRC = "harness/gen/log_driver.cpp"
 GEN_STATIC = "harness/gen/log_static.cpp"
+GEN_STATIC_EARLY = "harness/gen/log_static_early.cpp"   # the same, the minimum redefined after an early include of a log header
 
 
 def ensure_generated():
@@ -103,7 +104,7 @@ def ensure_generated():
     srcs = gen_log_harness.sources()
     for p, t in srcs.items():
         framework.write_if_changed(os.path.join(framework.ROOT, p), t)
-    return sorted(p for p in srcs if p not in (GEN_SRC, GEN_STATIC))
+    return sorted(p for p in srcs if p not in (GEN_SRC, GEN_STATIC, GEN_STATIC_EARLY))
 
 
 # the framework's flags with -O0 instead of -O1: the generated program instantiates ~1200 statement functions per binary
@@ -125,23 +126,24 @@ def static_assert_check(ctx, prop):
     import re
     from concurrent.futures import ThreadPoolExecutor
 
-    def one(i):
+    def one(j):
+        i, early = j % 6, j >= 6
         try:
-            framework.build_cpp(name="log_static_m%d" % i, driver_src=GEN_STATIC, flags=FLAGS,
-                                defines=["NITRO_LOG_MIN_SEVERITY=%s" % SEVS[i], "VH_MIN=%d" % i])
+            framework.build_cpp(name="log_static%s_m%d" % ("_early" if early else "", i), driver_src=GEN_STATIC_EARLY if early else GEN_STATIC,
+                                flags=FLAGS, defines=["NITRO_LOG_MIN_SEVERITY=%s" % SEVS[i], "VH_MIN=%d" % i])
             return i, None
         except framework.BuildError as e:
-            return i, str(e)
+            return i, ("[%s] " % (GEN_STATIC_EARLY if early else GEN_STATIC)) + str(e)
     with ThreadPoolExecutor(6) as ex:
-        res = list(ex.map(one, range(6)))
+        res = list(ex.map(one, range(12)))
     failed = [(i, e) for i, e in res if e is not None]
-    ctx.setdefault("coverage_extra", {})["static_assert_programs"] = dict(compiled=6 - len(failed), failed=len(failed),
+    ctx.setdefault("coverage_extra", {})["static_assert_programs"] = dict(compiled=12 - len(failed), failed=len(failed),
                                                                           asserts_per_program=6 * len(LOGGERS))
     if not failed:
         return
     i, err = failed[0]
     m = re.search(r"C10-STREAM-TYPE logger=(\d+) severity=(\d+) expected=(\w+)", err)
-    payload = dict(property=prop, kind="static_assert", minimum=SEVS[i], output=err[-3000:], n_failing_minima=len(failed), seed=ctx["seed"], tier=ctx["tier"])
+    payload = dict(property=prop, kind="static_assert", minimum=SEVS[i], program=err[1:err.index("]")], output=err[-3000:], n_failing_minima=len(failed), seed=ctx["seed"], tier=ctx["tier"])
     if m:
         lg, sv = int(m.group(1)), int(m.group(2))
         payload.update(case=case(i, [op_kind(lg, sv)]), expected_type=m.group(3),
